@@ -79,6 +79,10 @@ pub mod pipe;
 pub mod poll;
 pub mod process;
 
+#[cfg(a10_verif)]
+#[doc(hidden)]
+pub mod verif;
+
 cfg_select! {
     any(target_os = "android", target_os = "linux") => {
         mod io_uring;
